@@ -502,6 +502,19 @@ def evaluate(cases, rep, tag="cases"):
             nfail += 1
             rep.violation(what.split(" ")[-1] if " " in what else "impl-vs-model",
                           _replayable(case), dict(detail, what=what), ctx)
+        # READ-ORDER LEG (common_cases.late_reads; every second case): the shares read after every other
+        # public read of a second partition must be the ones of the fresh partition compared above
+        if int(case.get("k", 0)) % 2 == 0:
+            from harness.props import common_cases as cc
+            population, late = cc.late_reads(case, [n for n in io["v"] if n != "sums"] + ["sums"], io["v"])
+            rep.dist("late-reads:" + ("strand" if io["ndim"] == 1 else "slice"))
+            for n, a, b, culprits in late[:1]:
+                nfail += 1
+                rep.violation("impl-vs-property", _replayable(case),
+                              {"what": "%s depends on what was read before" % n, "fresh": a,
+                               "after_other_reads": b, "population": population,
+                               "single_earlier_reads_that_change_it": culprits},
+                              {"measure": n, "oracle": "order_independent"})
     return coq_s, len(terms), nfail
 
 
